@@ -430,6 +430,7 @@ def run(res, tier):
     res.rule("SIGN-4", "a Galois element computed with `%` and stored with set_p is reduced modulo cyclotomic_order() / 2 * n()")
     res.rule("RAD-3", "min / max of the limb counts of two objects only where their radices are known equal")
     res.rule("ROW-1", "row accessors X.at(row, ..) / X.at_mut(row, ..) in a row loop: the loop bound stays within X.dnum() under the comparisons that dominate the access")
+    res.rule("UNIT-1", "comparisons, min and max between limb counts, key row counts and bit precisions (limbs = rows * dsize, bits = limbs * base2k) relate quantities of the same unit")
     res.rule("RAD-1", "a cross-radix conversion skipped / taken on a radix comparison is guarded by the comparison of exactly its input and output radices")
     res.rule("RAD-2", "no call of an operation asserting equal radices of two arguments sits on a branch whose guards imply that they differ")
     res.assumptions = ["vec_znx_dft_copy / vec_znx_dft_apply select limbs offset, offset + step, ...; vmp accumulates at limb_offset (C07)", "zeroed accumulators of multi-digit products: SC-3 under C12"]
@@ -457,5 +458,7 @@ def run(res, tier):
         nr3 = rad.rad3(p, res, RAD_PREFIXES + ("poulpy_core::api::conversion",))
         res.floor("RAD-3", "limb counts of two objects combined", nr3, 1)
         nrow = rad.row1(p, res, RAD_PREFIXES + ("poulpy_core::api::keyswitching", "poulpy_core::api::automorphism"))
+        nu = rad.unit1(p, res, RAD_PREFIXES + ("poulpy_core::api::keyswitching", "poulpy_core::api::automorphism", "poulpy_core::api::conversion"))
+        res.floor("UNIT-1", "comparisons / min / max between quantities of known units", nu, 11)
         res.floor("ROW-1", "row accessors in row loops", nrow, 18)
         res.fn_count += n + n3
